@@ -519,6 +519,9 @@ func TestC05(t *testing.T) {
 	var firstCase c05Case
 	inconcl := ""
 	sem := make(chan struct{}, 12)
+	if !firstBatch() {
+		cases = nil
+	}
 	for _, c := range cases {
 		c := c
 		fmu.Lock()
